@@ -39,7 +39,20 @@ STREAMS = {
     "sfr": {"relevant": True, "desc": "ServerC2Data(ct + sig).iter_encrypted_packets()"},
     "cframes": {"relevant": False, "desc": "ClientC2Data(raw bytes / None).iter_encrypted_packets(), malformed frames"},
     "sframes": {"relevant": False, "desc": "ServerC2Data(raw bytes / None).iter_encrypted_packets()"},
+    # the definitions translated from the source text by tools/py2lean.py (Gen/PyC2.lean) on the same cases; they follow the source by
+    # construction, so a difference is a defect of the translator / Model/PyRt.lean, not of the library
+    "g-pad": {"relevant": False, "desc": "translated c2.pad vs the function"},
+    "g-padto": {"relevant": False, "desc": "translated c2.pad(data, block_size) incl. block sizes <= 0"},
+    "g-encd": {"relevant": False, "desc": "translated encrypt_data vs the function"},
+    "g-decd": {"relevant": False, "desc": "translated decrypt_data vs the function"},
+    "g-rfs": {"relevant": False, "desc": "translated EncryptedPacket.raise_for_signature vs the method"},
+    "g-enc": {"relevant": False, "desc": "translated encrypt_packet vs the function"},
+    "g-dec": {"relevant": False, "desc": "translated decrypt_packet vs the function"},
+    "g-dumps": {"relevant": False, "desc": "translated EncryptedPacket.dumps vs the method"},
+    "g-derive": {"relevant": False, "desc": "translated derive_aes_hmac_keys vs the function (SHA-256 computed by hashlib)"},
 }
+GEN = ["py_utils", "py_c2"]
+EXTRA_PROP_FILES = ["Props/C05Gen.lean"]
 TRUSTED = [
     "tools/harness/c05.py generators, adapters, oracle tables (pycryptodome AES-CBC and hmac/hashlib called directly) and the "
     "recording proxies put in place of c2.AES / c2.hmac; line protocol parsing and table look-up in lean/CsVerif/Driver/C05.lean",
@@ -186,7 +199,27 @@ def frame(ct: bytes, sig: bytes) -> bytes:
     return (len(ct) + len(sig)).to_bytes(4, "big") + ct + sig
 
 
+G_STREAMS = {"pad", "padto", "encd", "decd", "rfs", "enc", "dec", "dumps"}
+
+
 def gen(tier, rng, shard, nshards):
+    """every case of the translatable streams is also run through the translated definition (`g-` streams)"""
+    import hashlib
+    for stream, line in gen0(tier, rng, shard, nshards):
+        yield stream, line
+        if stream in G_STREAMS and len(line) < 30000:
+            if stream == "enc" and line.split()[3] == "none":
+                continue        # hmac_key=None: TypeError inside hmac.new, outside the typed translation
+            yield "g-" + stream, "g" + line
+    thorough = tier == "thorough"
+    for _ in range((600 if thorough else 120) // nshards):
+        bs = rng.choice([0, -1, -16, 1, 2, 16, 17, 300])
+        yield "g-padto", f"gpadto {bs} {C.hx(C.rbytes(rng, rng.choice([0, 1, 15, 16, 17, 40])))}"
+        r = C.rbytes(rng, rng.choice([0, 1, 16, 16, 16, 32, 100]))
+        yield "g-derive", f"gderive {C.hx(r)} {C.hx(hashlib.sha256(r).digest())}"
+
+
+def gen0(tier, rng, shard, nshards):
     thorough = tier == "thorough"
     k = 0
 
@@ -523,6 +556,16 @@ def run_gen(it):
 
 def impl(stream, line):
     w = line.split()
+    if stream == "g-padto":
+        return "ok " + C.hx(c2.pad(C.unhx(w[2]), int(w[1])))
+    if stream == "g-derive":
+        a, b = c2.derive_aes_hmac_keys(C.unhx(w[1]))
+        return f"ok {C.hx(a)} {C.hx(b)}"
+    if stream.startswith("g-"):
+        base = impl(stream[2:], line[1:])
+        if stream in ("g-pad",):
+            return "ok " + base
+        return base.partition(" calls")[0]
     if stream == "pad":
         return C.hx(c2.pad(C.unhx(w[1])))
     if stream == "padto":
@@ -602,6 +645,8 @@ def fmt_packets(pk):
 
 def oracle(stream, line, out):
     w = line.split()
+    if stream.startswith("g-"):
+        return None
     if stream in ("pad", "padto"):
         d = C.unhx(w[-1])
         bs = int(w[1]) if stream == "padto" else 16
